@@ -68,40 +68,41 @@ type Exec struct {
 	bounds map[string]int
 
 	// per path
-	prefix     []int8
-	pos        int
-	trace      []int8
-	pending    [][]int8
-	globals    map[*ssa.Global]*Cell
-	cellSeq    int
-	objSeq     int
-	declared   map[string]int    // model variables: name -> width
-	strVars    map[string]bool   // variables holding interned string ids
-	choices    map[string]uint64 // concrete fork decisions recorded under a name
-	occ        map[string]int
-	spawned    []*spawnRec
-	stack      []*frame
-	covers     map[string]bool
-	tags       map[string]string
-	panicLbl   string
-	fatalLbl   string
-	steps      int
-	inBg       bool
-	pcDirty    bool
-	model      map[string]uint64
-	pendingA   []pendingAssert
-	modelOK    bool
-	clockN     int
-	lastNow    *Term
-	ghost      map[string]Value
-	mutexOps   int
-	blobSeq    int
-	vfs        *VFS
-	accessLog  []accessRec
-	trackLocks bool
-	prop       string // the property being checked ("" = none): see checkOne
-	muHeld     int
-	raftCells  int
+	prefix      []int8
+	pos         int
+	trace       []int8
+	pending     [][]int8
+	globals     map[*ssa.Global]*Cell
+	cellSeq     int
+	objSeq      int
+	declared    map[string]int    // model variables: name -> width
+	strVars     map[string]bool   // variables holding interned string ids
+	choices     map[string]uint64 // concrete fork decisions recorded under a name
+	occ         map[string]int
+	spawned     []*spawnRec
+	stack       []*frame
+	covers      map[string]bool
+	tags        map[string]string
+	panicLbl    string
+	otherFailed bool // an obligation of a property other than the checked one failed on this path
+	fatalLbl    string
+	steps       int
+	inBg        bool
+	pcDirty     bool
+	model       map[string]uint64
+	pendingA    []pendingAssert
+	modelOK     bool
+	clockN      int
+	lastNow     *Term
+	ghost       map[string]Value
+	mutexOps    int
+	blobSeq     int
+	vfs         *VFS
+	accessLog   []accessRec
+	trackLocks  bool
+	prop        string // the property being checked ("" = none): see checkOne
+	muHeld      int
+	raftCells   int
 
 	// accumulated across paths (owned by this worker)
 	res *HarnessResult
@@ -120,6 +121,11 @@ func (ex *Exec) fatal(format string, args ...any) {
 }
 
 func (ex *Exec) end(kind, detail string) {
+	if kind == "PANIC" && ex.otherFailed && strings.HasPrefix(ex.where(), "zz_verif") {
+		// harness code faulting on a value whose validity was an obligation of another property that
+		// already failed on this path (and is reported there): not an observation about the library
+		kind, detail = "PRUNED", "harness fault after a failed obligation of another property: "+detail
+	}
 	panic(pathEnd{Kind: kind, Detail: detail})
 }
 
